@@ -39,9 +39,9 @@ CORPUS = os.path.join(os.path.dirname(os.path.abspath(__file__)), 'corpus')
 # fixed (then the witness stops reproducing and nothing is printed).
 SIG_EID = 'C03 / EID text altered within what EidField.i2m normalises away (query, fragment, missing path slash; primary block with stale or absent CRC, or security source) still verifies'
 SIG_IGNORED = 'C03 / security block whose BTSD the decoder cannot dissect is ignored: altered BIB, bundle delivered unverified'
-SIG_REASON = 'C03 / verify_bib raises on a malformed security block: status reason is the exception text, no FAILED_SEC, report generation raises out of recv_bundle'
+SIG_REASON = 'C03 / verify_bib raises on a malformed security block: status reason is the exception text, no FAILED_SEC, report generation raises out of recv_bundle'   # fixed in /repo d956b1c: a real violation if it reappears
 SIG_MACKW = 'C03 / COSE_Mac with key-wrap recipient: genuine BIB never verifies and apply_bib raises (pycose API mismatch), bundle sent without BIB'
-PENDING_FINDINGS = [SIG_EID, SIG_IGNORED, SIG_REASON, SIG_MACKW]
+PENDING_FINDINGS = [SIG_EID, SIG_IGNORED, SIG_MACKW]
 
 PAYLOAD = b'hello world'
 
@@ -198,7 +198,7 @@ def suite_aad(chk, node, quick):
             sd.coq_cbor(bpdrive.eid_to_cbor(case['source'])), sd.coq_scope(case['scope']), sd.coq_octets(case['addl']),
             case['target']))
     func = '(fun c => match c with (w, sec, src, sc, ad, t) => direct_aad w sec src sc ad t end)'
-    model = chk.coq_eval('aad', ['Lib.Cbor', 'Model.BpSec'], terms, func, chunk=max(12, (len(terms) + 15) // 16))
+    model = chk.coq_eval('aad', ['Lib.Cbor', 'Model.BpSec'], terms, func, chunk=max(12, (len(terms) + procs() - 1) // procs()))
     bad = []
     for (case, real, mod) in zip(cases, impl, model):
         real_c = None if isinstance(real, str) else list(real)
@@ -321,8 +321,18 @@ def eid_only(orig, alt):
                 if cbor2.dumps(ao) != cbor2.dumps(aa):
                     return False
                 idx = io.index(bo)
-                so[idx][4] = sa[idx][4] = 'ASB'
+                so[idx] = sa[idx] = ['SECBLK'] + list(bo[:4])
+                if list(bo[:4]) != list(ba[:4]):
+                    return False
         return so == sa
+    except Exception:
+        return False
+
+
+def primary_same(orig, alt):
+    ''' the primary block octets are identical (so routing, CRC gate and duplicate detection cannot differ) '''
+    try:
+        return sd.split_bundle(orig)[0][1] == sd.split_bundle(alt)[0][1]
     except Exception:
         return False
 
@@ -334,7 +344,7 @@ def oracle(suite, ent, case, cls, out, replay):
     direct = out.get('direct') or {}
     bib = direct.get('bib', [])
     delivered = out['delivered']
-    pay_ok = delivered and out['payload'] == ent['payload'].hex()
+    pay_ok = delivered and (out['payload'] == ent['payload'].hex() or 1 not in ent.get('targets', [1]))
     if klass == 'must_fail':
         if delivered:
             if bib == [] and direct.get('error') is None:
@@ -363,7 +373,13 @@ def oracle(suite, ent, case, cls, out, replay):
         elif delivered:
             suite.count('lenient_decode_verified', case['kind'])
     elif klass == 'must_pass':
-        if not (delivered and pay_ok and bib and all(val is None for val in bib)):
+        verified = bool(bib) and all(val is None for val in bib) and direct.get('error') is None
+        routing_same = primary_same(ent['wire'], case['alt'])
+        if direct.get('error') is not None and not routing_same:
+            # the altered primary block (outside the scope here) makes the bundle undecodable for the agent
+            # (e.g. administrative-record flag set on a non-record payload): nothing is verified or delivered
+            suite.count('must_pass_undecodable_after_primary_change', case['kind'])
+        elif not verified or (routing_same and not (delivered and pay_ok)):
             chk.fail(signature='C03 / alteration outside the declared scope makes verification fail or changes the delivered data',
                      what='alteration %s leaves all covered content unchanged but: delivered=%r payload_ok=%r verify_bib=%r reason=%r exc=%r' % (
                          case['label'], delivered, pay_ok, bib, out['reason'], out['recv_exc'] or out['decode_error']),
@@ -402,7 +418,7 @@ def suite_alterations(suite, wires, quick):
         trace('%s: %d alterations classified' % (ent['id'], len(cases)))
         outs = sd.sweep(dict(profile=ent['profile']), [case['alt'] for case in cases], procs=nproc)
         trace('%s: swept' % ent['id'])
-        budget = 90 if quick else 2000
+        budget = 45 if quick else 2000
         for (cidx, (case, cls, out)) in enumerate(zip(cases, classes, outs)):
             replay = dict(wire_hex=ent['wire'].hex(), alt_hex=case['alt'].hex(), profile=ent['profile'], label=case['label'],
                           payload_hex=ent['payload'].hex(), wire_id=ent['id'])
@@ -424,11 +440,14 @@ def suite_alterations(suite, wires, quick):
     trace('%d verdict terms' % len(verdict_terms))
     if verdict_terms:
         model = chk.coq_eval('verdict', ['Lib.Cbor', 'Model.BpSec'], verdict_terms, '(fun p => verdict (fst p) (snd p))',
-                             prelude='\n'.join(prelude), chunk=max(40, (len(verdict_terms) + 15) // 16))
+                             prelude='\n'.join(prelude), chunk=max(40, (len(verdict_terms) + procs() - 1) // procs()))
         for ((ent, case, cls, out), verdict) in zip(verdict_meta, model):
             suite.count('model_verdict', verdict)
             direct = out['direct']
-            if not expected_direct(verdict, direct['bib'], direct['error']):
+            if cls[0] in ('malformed', 'asb_malformed'):
+                suite.count('verdict_outside_model_domain', cls[0])
+                continue
+            if not expected_direct(verdict, direct['bcb'] + direct['bib'], direct['error']):
                 disagree.append(dict(wire=ent['id'], label=case['label'], verdict=verdict, verify_bib=direct['bib'],
                                      error=direct['error'], cls=cls[0], alt_hex=case['alt'].hex(), wire_hex=ent['wire'].hex()))
             # the model and the property text must agree on what is covered, except where the model
